@@ -128,6 +128,15 @@ func runOnSafeFormatter(ops []*Op) []byte {
 }
 
 func checkC09(h *HistSpec) Result {
+	ledgerStart()
+	res := checkC09Run(h)
+	if err := ledgerVerify(); err != nil && res.Err == nil {
+		res.Err = err
+	}
+	return res
+}
+
+func checkC09Run(h *HistSpec) Result {
 	var res Result
 	res.NonTrivial, res.Classes = histClasses(h.Ops)
 	fail := func(err error) Result { res.Err = err; return res }
